@@ -18,6 +18,10 @@ import TempestVerif.Model.Ess
           i -= 1
       return samples[mask], weights_trimmed
 
+  SOURCE-DERIVED: `Props/C20Source.lean` (`C20_src_trim_body`, `_trim_loop`, `_trimStop`, `_trim`) proves that `step`, `search`,
+  `trimStop`, `trim` are the loop body / loop / whole function compiled from the current `tools.py` (translator G16,
+  `Gen/ToolsSrc.lean`); `percentileLinear`, `linspace0_99`, `filterMask`, `sortAsc` are hand-written models of numpy routines.
+
   numpy (2.x) `percentile(a, p)`, method 'linear':  q = p/100;  v = (n-1)*q;  lo = floor v;  hi = lo+1;
   if v >= n-1 both indices are the last one;  gamma = v - lo;  result = _lerp(sorted[lo], sorted[hi], gamma) with
       _lerp(a,b,t) = a + (b-a)*t,  overwritten by  b - (b-a)*(1-t)  where t >= 0.5.
@@ -100,5 +104,23 @@ def trimStop (w : List α) (essFrac : α) (bins : Nat) : Option (Nat × Step α)
 /-- `trim_weights(samples, weights, ess, bins)` -/
 def trim {σ : Type} (samples : List σ) (w : List α) (essFrac : α) (bins : Nat) : Option (List σ × List α) :=
   (trimStop w essFrac bins).map fun r => (filterMask samples r.2.mask, r.2.wt)
+
+/-! ### numpy routines under the names the regenerated `Gen/ToolsSrc.lean` refers to -/
+
+/-- `np.linspace(0, stop, n)[i]` for `i < n` (`linspace0_99 bins i` is `linspace0 (Sc.ofNat 99) bins i`, by `rfl`) -/
+def linspace0 (stop : α) (n i : Nat) : α :=
+  if n ≤ 1 then Sc.zero
+  else if i + 1 = n then stop
+  else Sc.mul (Sc.ofNat i) (Sc.div stop (Sc.ofNat (n - 1)))
+
+/-- `np.linspace(start, stop, n)[i]` for `i < n`, general start (numpy: `arange(n) * step + start`, last entry forced to `stop`);
+    not used by the present source — the translator emits it when the grid does not start at the literal `0` -/
+def linspace (start stop : α) (n i : Nat) : α :=
+  if n ≤ 1 then start
+  else if i + 1 = n then stop
+  else Sc.add (Sc.mul (Sc.ofNat i) (Sc.div (Sc.sub stop start) (Sc.ofNat (n - 1)))) start
+
+/-- `np.percentile(a, p)` of an unsorted array (`none`: empty array) -/
+def percentile (a : List α) (p : α) : Option α := percentileLinear (sortAsc a) p
 
 end Model.Trim
